@@ -1,5 +1,6 @@
 import Driver.Util
 import Driver.MuxD
+import Driver.CodecD
 /-!
 # `limedriver` — line protocol in front of the executable model
 
@@ -12,6 +13,11 @@ def dispatch (j : Json) : R Json := do
   let m ← getStr j "m"
   match m with
   | "mux" => MuxD.handle j
+  | "enc" => CodecD.handleEnc j
+  | "dec" => CodecD.handleDec j
+  | "text" => CodecD.handleText j
+  | "wf" => CodecD.handleWf j
+  | "build" => CodecD.handleBuild j
   | "ping" => pure (Json.mkObj [("pong", .bool true)])
   | _ => throw s!"unknown mode {m}"
 
